@@ -167,6 +167,34 @@ def blackbox(ctx):
         GC.simple_layout(s, blocks)
         s.meta = {"sibling-opreturns": i}
         by_cb.setdefault(cb, []).append(s)
+    # text after OP_RETURN with a multi-byte character (or, on the coins that print lossily, an invalid byte that becomes the 3-byte
+    # U+FFFD) astride every byte offset 1..70: whatever a callback or a log line does with such text (cut it, pad it, count it) must
+    # not depend on where the character boundaries fall — at every log level, since -v / -vv only add log lines
+    wide = [b"\xc3\xa9", b"\xe2\x82\xac", b"\xf0\x9f\x98\x80", b"\xff", b"\xc2\x85", b"\xef\xbf\xbd"]
+    for ci, coin in enumerate(("bitcoin", "litecoin", "dogecoin")):
+        blocks = GC.gen_chain(r, coin, 5, max_txs=1, max_io=1, auxpow_mix=False, segwit=False)
+        offs = list(range(0, 71))
+        for j, b in enumerate(blocks[1:]):
+            outs = []
+            for off in offs[j::4]:
+                ch = wide[(off + ci) % len(wide)]
+                pay = (b"a" * off + ch + b"z" * 75)[:75]
+                if len(pay[:off + len(ch)]) < off + len(ch):
+                    pay = pay[:off]
+                outs.append((off, b"\x6a" + bytes([len(pay)]) + pay))
+            b.txs.append(K.Tx([(GC.rb(r, 32), j, b"", 1)], outs))
+        prev = blocks[0].hash()
+        for b in blocks[1:]:
+            b.prev = prev
+            b.merkle_root = None
+            prev = b.hash()
+        for cb in CALLBACKS:
+            for vb in (0, 1, 2):
+                s = K.Scenario(coin=coin, callback=cb)
+                GC.simple_layout(s, blocks)
+                s.verbose = vb
+                s.meta = {"text-boundaries": coin, "v": vb}
+                by_cb.setdefault(cb, []).append(s)
     for cb, scns in by_cb.items():
         impl, model = bb.check(ctx, "adversarial-chains:" + cb, scns, comparators(cb))
         for s, res in zip(scns, impl):
